@@ -139,6 +139,8 @@ fn create_storage_impl(path: &str) -> std::io::Result<StorageImpl> {
 #[derive(Debug)]
 pub(crate) struct SharedMmap {
     storage: StorageImpl,
+    #[cfg(walrus_verif)]
+    verif_path: String,
     last_touched_at: AtomicU64,
 }
 
@@ -160,6 +162,8 @@ impl SharedMmap {
             .as_millis() as u64;
         Ok(Arc::new(Self {
             storage,
+            #[cfg(walrus_verif)]
+            verif_path: path.to_string(),
             last_touched_at: AtomicU64::new(now_ms),
         }))
     }
@@ -169,6 +173,8 @@ impl SharedMmap {
         debug_assert!(offset <= self.storage.len());
         debug_assert!(self.storage.len() - offset >= data.len());
 
+        #[cfg(walrus_verif)]
+        crate::wal::verif::io_event_data("write", &self.verif_path, offset as u64, data);
         self.storage.write(offset, data);
 
         let now_ms = SystemTime::now()
@@ -189,7 +195,17 @@ impl SharedMmap {
     }
 
     pub(crate) fn flush(&self) -> std::io::Result<()> {
+        #[cfg(walrus_verif)]
+        {
+            crate::wal::verif::fault_io("flush")?;
+            crate::wal::verif::io_event("fsync", &self.verif_path, 0, 0);
+        }
         self.storage.flush()
+    }
+
+    #[cfg(walrus_verif)]
+    pub(crate) fn verif_path(&self) -> &str {
+        &self.verif_path
     }
 
     #[allow(dead_code)]
